@@ -17,6 +17,13 @@ Emit == c.k \in {"init", "grp"} \/ PrintT(<<"CASE", CaseJson>>)
 ASSUME LayoutsWellFormed
 ASSUME LaypHasTeeth
 ASSUME \A b \in Byte : LvmAgree(b)
+\* vacuity guard of the body-content dimension: every non-zero class of placeholder body is generated,
+\* and the packet the specification builds for it carries a non-zero body byte
+PhClassesGenerated ==
+  \A cl \in NtsPhClasses \ {"zero"} :
+     \E g \in NtsGroups : \E x \in NtsCasesOf(g) : \E i \in DOMAIN x.phb :
+        x.phb[i] = cl /\ \E j \in DOMAIN NtsPacket(x).ph[i] : NtsPacket(x).ph[i][j] # 0
+ASSUME PhClassesGenerated
 
 \* quick / thorough constants (cfg files cannot hold expressions)
 Pre2Exh == {0, 128, 255}
